@@ -29,7 +29,8 @@
         writing through a parameter (the documented builders of CompositeTransform / CoordinateManager, attribute
         assignment on a CoordinateManager, and the class-level validator cache of validate / deserialize), and
         `public_callables_leave_arguments_unchanged` concludes that every other public callable leaves the memory of
-        all its arguments (and of `self`) unchanged in every execution of its abstract program.  NOT covered by the
+        all its arguments (and of `self`), and the module-level / closure state that outlives the call (the last
+        pseudo-parameter of every program), unchanged in every execution of its abstract program.  NOT covered by the
         theorem: that the Python source behaves like its abstract program (which expressions return views, which
         NumPy calls work in place, loops unrolled a fixed number of times, no writes through module globals /
         closures of other modules) — that is the translator's trusted abstraction; determinism ("calling it again
@@ -1196,7 +1197,9 @@ def publicWrites : List (String × List Nat) :=
 /-- Generated from the source: exactly these public callables write through a parameter — all of them through
 parameter 0 (`self` / `cls`): the step builders of CompositeTransform and their CoordinateManager twins, `tag_as`,
 attribute assignment on a CoordinateManager (whose new value, parameter 1, becomes reachable from `self`), and
-`validate` / `deserialize`, which fill the class-level validator cache.  A source edit that stores into an
+`validate` / `deserialize`, which fill the class-level validator cache.  In particular no public callable writes
+through its last pseudo-parameter, the module-level / closure state that outlives the call (a memo of the last
+arguments, a scratch buffer kept in a closure, a `global` counter would).  A source edit that stores into an
 argument (`points[...] = `, `np.f(.., out=points)`, `points.sort()`, a helper that does so, a view of the argument
 that is later written) changes this list and breaks the theorem. -/
 theorem gen_argument_writes : publicWrites =
